@@ -2,6 +2,7 @@ import GoguVerif.Go.Run
 import GoguVerif.Kinds.QueueStack
 import GoguVerif.Kinds.Heap
 import GoguVerif.Kinds.Trees
+import GoguVerif.Kinds.Lists
 /-!
 # The compiled driver
 
@@ -27,6 +28,8 @@ def kindOf (name : String) : Option Kind :=
   | "btree" => some Kinds.BTree.kind
   | "trie" => some Kinds.Trie.kind
   | "lru" => some Kinds.Lru.kind
+  | "slist" => some (Kinds.Lists.kindFor false)
+  | "dlist" => some (Kinds.Lists.kindFor true)
   | "lqueue" => some Kinds.Q.lqueueSpecOnly
   | "lstack" => some Kinds.S.lstackMonitor
   | _ => none
